@@ -160,7 +160,9 @@ def inline_new_class_constants(tree, rel):
         n = s.targets[0].id
         if n.startswith('_') and not n.startswith('__') and (c.name + '.' + n) not in ka \
             and ((_table(s.value) and isinstance(s.value, ast.Tuple)) or
-                 _const_dict(s.value, tree, n)):
+                 _const_dict(s.value, tree, n) or
+                 (isinstance(s.value, ast.Constant) and isinstance(
+                     s.value.value, (str, int, bool)))):
           consts[n] = s.value
     for n in ast.walk(tree):
       if isinstance(n, ast.Attribute) and n.attr in consts and not isinstance(n.ctx, ast.Load):
